@@ -40,4 +40,19 @@ theorem sparse_wiring :
     ∧ Gen.sparse_task_data = "match_pattern = self.params.match_pattern ; crop_size = match_pattern.get_crop_size() ; size = (2 * crop_size + 1, 2 * crop_size + 1) ; template = match_pattern.get_mask(sig_shape=size) ; steps = self.params.steps ; peak_offsetY, peak_offsetX = np.mgrid[-steps:steps + 1, -steps:steps + 1] ; offsetY = self.params.peaks[:, 0, np.newaxis, np.newaxis] + peak_offsetY - crop_size ; offsetX = self.params.peaks[:, 1, np.newaxis, np.newaxis] + peak_offsetX - crop_size ; offsetY = offsetY.flatten() ; offsetX = offsetX.flatten() ; stack = functools.partial(masks.sparse_template_multi_stack, mask_index=range(len(offsetY)), offsetX=offsetX, offsetY=offsetY, template=template, imageSizeX=self.meta.dataset_shape.sig[1], imageSizeY=self.meta.dataset_shape.sig[0]) ; if self.meta.array_backend in sparseconverter.CPU_BACKENDS: backend = 'numpy' elif self.meta.array_backend in sparseconverter.CUDA_BACKENDS: backend = 'cupy' else: raise ValueError('Unknown device class') ; if self.meta.array_backend == self.BACKEND_SPARSE_COO: use_sparse = 'sparse.pydata' elif self.meta.array_backend == self.BACKEND_SPARSE_GCXS: use_sparse = 'sparse.pydata.GCXS' elif self.meta.array_backend in (self.BACKEND_CUPY, self.BACKEND_NUMPY): use_sparse = 'scipy.sparse.csc' else: raise RuntimeError(f'Unsupported array backend {self.meta.array_backend}') ; container = MaskContainer(mask_factories=stack, dtype=np.float32, use_sparse=use_sparse, backend=backend) ; kwargs = {'mask_container': container, 'crop_size': crop_size} ; return kwargs" := by
   refine ⟨rfl, rfl, rfl, rfl, rfl⟩
 
+/-- further text of the current source that the model takes for granted (glue between library calls: argument lists, output
+allocation, loop bodies) -- a change there is a change of the tie -/
+theorem text_pins_more :
+    Gen.udf_fast_arg_template = "self.get_template()" ∧
+    Gen.udf_fast_arg_out_centers = "centers" ∧
+    Gen.udf_fast_arg_out_refineds = "refineds" ∧
+    Gen.udf_fast_arg_out_heights = "peak_values" ∧
+    Gen.udf_fast_arg_out_elevations = "peak_elevations" ∧
+    Gen.udf_full_arg_template = "self.get_template()" ∧
+    Gen.udf_full_arg_frame = "frame" ∧
+    Gen.udf_full_arg_out_centers = "centers" ∧
+    Gen.udf_full_arg_out_refineds = "refineds" ∧
+    Gen.udf_full_arg_out_heights = "peak_values" ∧
+    Gen.udf_full_arg_out_elevations = "peak_elevations" := ⟨rfl, rfl, rfl, rfl, rfl, rfl, rfl, rfl, rfl, rfl, rfl⟩
+
 end C10
